@@ -54,6 +54,8 @@ func init() {
 			Run: func(P *Program, R *Report) { decodersResetRule(P, R, "C18.j") }},
 		Rule{ID: "C18.l", Explain: "no decoder or encoder drops a failure: in the Marshal*/Unmarshal*/compress/uncompress functions of the module and the key-file loaders and writers of gabikeys an error of a step is looked at (same rule as C08.g: the error a call returns has a use - a nil test or a return - before it is overwritten, shadowed or left behind).",
 			Run: func(P *Program, R *Report) { errorResultsUsedRule(P, R, "C18.l", func(fn *ssa.Function) bool { n := fn.Name(); return strings.Contains(n, "arshal") || strings.Contains(n, "ompress") || inFiles(P, "gabikeys/marshaling.go", "gabikeys/keys.go", "signed/")(fn) }, nil, 15) }},
+		Rule{ID: "C18.n", Explain: "decoders start from nothing: Update and EventList (JSON and CBOR) decode into a zero-valued intermediate value - no field of it is filled from the receiver beforehand. A SignedAccumulator handed to the decoder for reuse keeps the memo of the accumulator it verified last (not on the wire), so the next message decoded into the same Update is never signature-checked, and witnesses that alias the object see it overwritten.",
+			Run: func(P *Program, R *Report) { freshDecodeTargetRule(P, R, "C18.n") }},
 	)
 }
 
@@ -814,4 +816,60 @@ func base64AlphabetsRule(P *Program, R *Report, rule string) {
 		ws, rs := strings.Join(sortedKeys(w), ","), strings.Join(sortedKeys(r), ",")
 		R.decide(rule, p.name+":base64", "the text form is written and read with the same base64 alphabet", ws == rs && ws != "", "written with "+ws+", read with "+rs, "")
 	}
+}
+
+// freshDecodeTargetRule: the decoders of Update and EventList decode into a zero-valued intermediate value: nothing of
+// the receiver is put into it beforehand (a SignedAccumulator handed over for reuse keeps its verified-accumulator
+// memo - which the wire cannot set - so that the next message is never signature-checked; objects that witnesses
+// alias are overwritten by the decode).
+func freshDecodeTargetRule(P *Program, R *Report, rule string) {
+	n := 0
+	for _, key := range []string{"revocation.(*Update).UnmarshalJSON", "revocation.(*Update).UnmarshalCBOR", "revocation.(*EventList).UnmarshalJSON", "revocation.(*EventList).UnmarshalCBOR"} {
+		fn := mustFunc(P, R, rule, key)
+		if fn == nil {
+			continue
+		}
+		var pre []string
+		found := false
+		allInstrs(fn, func(i ssa.Instruction) {
+			al, ok := i.(*ssa.Alloc)
+			if !ok || !strings.Contains(typeStr(al.Type()), "compressed") {
+				return
+			}
+			found = true
+			for _, r := range referrersOf(al) {
+				switch u := r.(type) {
+				case *ssa.FieldAddr:
+					for _, rr := range referrersOf(u) {
+						if st, isSt := rr.(*ssa.Store); isSt && st.Addr == ssa.Value(u) {
+							if c, isC := st.Val.(*ssa.Const); isC && c.Value == nil {
+								continue
+							}
+							pre = append(pre, faName(u)+" <- "+desc(st.Val))
+						}
+					}
+				case *ssa.Store:
+					if u.Addr == ssa.Value(al) {
+						if ld, isLd := u.Val.(*ssa.UnOp); isLd {
+							if src, isAl := ld.X.(*ssa.Alloc); isAl {
+								// a composite literal copied in: its field stores count
+								for _, r2 := range referrersOf(src) {
+									if fa, isFA := r2.(*ssa.FieldAddr); isFA {
+										for _, r3 := range referrersOf(fa) {
+											if st, isSt := r3.(*ssa.Store); isSt && st.Addr == ssa.Value(fa) {
+												pre = append(pre, faName(fa)+" <- "+desc(st.Val))
+											}
+										}
+									}
+								}
+							}
+						}
+					}
+				}
+			}
+		})
+		n++
+		R.decide(rule, key+":fresh-target", "the message is decoded into a zero-valued intermediate value (nothing of the receiver is handed to the decoder for reuse)", found && len(pre) == 0, strings.Join(pre, "; "), P.Pos(fn.Pos()))
+	}
+	R.decide(rule, "decoders:count", "the four decoders were found", n == 4, fmt.Sprintf("%d", n), "")
 }
